@@ -6,6 +6,7 @@ import sys
 import jsonpath
 from jsonpath.__about__ import __version__
 from jsonpath.exceptions import JSONPatchError
+from jsonpath.exceptions import JSONPathError
 from jsonpath.exceptions import JSONPathIndexError
 from jsonpath.exceptions import JSONPathSyntaxError
 from jsonpath.exceptions import JSONPathTypeError
@@ -242,7 +243,7 @@ def handle_path_command(args: argparse.Namespace) -> None:  # noqa: PLR0912
     if args.query is not None:
         query = args.query
     else:
-        query = args.query_file.read().strip()
+        query = args.path_file.read().strip()
 
     try:
         path = jsonpath.JSONPathEnvironment(
@@ -264,10 +265,15 @@ def handle_path_command(args: argparse.Namespace) -> None:  # noqa: PLR0912
             raise
         sys.stderr.write(f"json path index error: {err}\n")
         sys.exit(1)
+    except JSONPathError as err:
+        if args.debug:
+            raise
+        sys.stderr.write(f"json path error: {err}\n")
+        sys.exit(1)
 
     try:
         matches = path.findall(args.file)
-    except json.JSONDecodeError as err:
+    except (json.JSONDecodeError, UnicodeDecodeError) as err:
         if args.debug:
             raise
         sys.stderr.write(f"target document json decode error: {err}\n")
@@ -277,6 +283,11 @@ def handle_path_command(args: argparse.Namespace) -> None:  # noqa: PLR0912
         if args.debug:
             raise
         sys.stderr.write(f"json path type error: {err}\n")
+        sys.exit(1)
+    except JSONPathError as err:
+        if args.debug:
+            raise
+        sys.stderr.write(f"json path error: {err}\n")
         sys.exit(1)
 
     indent = INDENT if args.pretty else None
@@ -299,7 +310,7 @@ def handle_pointer_command(args: argparse.Namespace) -> None:
             unicode_escape=not args.no_unicode_escape,
             uri_decode=args.uri_decode,
         )
-    except json.JSONDecodeError as err:
+    except (json.JSONDecodeError, UnicodeDecodeError) as err:
         if args.debug:
             raise
         sys.stderr.write(f"target document json decode error: {err}\n")
@@ -318,7 +329,7 @@ def handle_patch_command(args: argparse.Namespace) -> None:
     """Handle the `patch` sub command."""
     try:
         patch = json.load(args.patch)
-    except json.JSONDecodeError as err:
+    except (json.JSONDecodeError, UnicodeDecodeError) as err:
         if args.debug:
             raise
         sys.stderr.write(f"patch document json decode error: {err}\n")
@@ -337,7 +348,7 @@ def handle_patch_command(args: argparse.Namespace) -> None:
             unicode_escape=not args.no_unicode_escape,
             uri_decode=args.uri_decode,
         )
-    except json.JSONDecodeError as err:
+    except (json.JSONDecodeError, UnicodeDecodeError) as err:
         if args.debug:
             raise
         sys.stderr.write(f"target document json decode error: {err}\n")
